@@ -1159,3 +1159,125 @@ func TestC04_overlay(t *testing.T) {
 	}
 	ev.Check(t, col, ev.Scale(ev.IntEnv("VERIF_C04_CHECKS", 2500), ev.IntEnv("VERIF_C04_CHECKS", 12000)), genC04(col), propC04)
 }
+
+// ---------------------------------------------------------------------------------------
+// Exhaustive sweep (thorough tier): every tree-consistent 2-layer image over the 6-path
+// universe a, a/b, a/b/c, a/d, e, e/f. Layer 0: each path absent / file / directory; layer 1:
+// each path absent / file / directory / whiteout, internal paths also directory + opaque
+// marker. Images that fall into a known-finding class are counted and skipped.
+// ---------------------------------------------------------------------------------------
+
+var c04SweepPaths = []string{"a", "a/b", "a/b/c", "a/d", "e", "e/f"}
+var c04SweepInternal = map[string]bool{"a": true, "a/b": true, "e": true}
+
+const (
+	swAbsent = iota
+	swFile
+	swDir
+	swWhiteout
+	swOpaqueDir
+)
+
+// c04SweepLayers enumerates the tree-consistent layers; withMarkers selects layer-1 states.
+func c04SweepLayers(layer int, withMarkers bool) []tarimg.Layer {
+	var out []tarimg.Layer
+	states := make([]int, len(c04SweepPaths))
+	var rec func(i int)
+	rec = func(i int) {
+		if i == len(c04SweepPaths) {
+			var l tarimg.Layer
+			fmode, dmode := int64(0o644), int64(0o755)
+			if layer == 1 {
+				fmode, dmode = 0o600, 0o750
+			}
+			for j, p := range c04SweepPaths {
+				switch states[j] {
+				case swFile:
+					l.Entries = append(l.Entries, tarimg.F(p, fmt.Sprintf("L%d:%s", layer, p), fmode))
+				case swDir:
+					l.Entries = append(l.Entries, tarimg.D(p, dmode))
+				case swWhiteout:
+					l.Entries = append(l.Entries, tarimg.W(p))
+				case swOpaqueDir:
+					l.Entries = append(l.Entries, tarimg.D(p, dmode), tarimg.O(p))
+				}
+			}
+			if len(l.Entries) > 0 && overlay.Consistent(l) {
+				out = append(out, l)
+			}
+			return
+		}
+		max := swDir
+		if withMarkers {
+			max = swWhiteout
+			if c04SweepInternal[c04SweepPaths[i]] {
+				max = swOpaqueDir
+			}
+		}
+		for s := swAbsent; s <= max; s++ {
+			states[i] = s
+			rec(i + 1)
+		}
+	}
+	rec(0)
+	return out
+}
+
+func TestC04_sweep(t *testing.T) {
+	col := ev.Get("C04")
+	completed := false
+	defer func() { col.Flush(completed) }()
+	if ev.Replaying() {
+		if ev.ReplayLeg() != t.Name() {
+			t.Skip("replay file is for another leg")
+		}
+		ev.HandleReplay(t, col, propC04)
+		completed = true
+		return
+	}
+	if !ev.Thorough() && ev.IntEnv("VERIF_C04_SWEEP", 0) == 0 {
+		completed = true
+		t.Skip("the exhaustive 2-layer sweep runs in the thorough tier")
+	}
+	e := ev.NewEnumerator(t, col)
+	e.Cap = 5
+	shard, shards := ev.Shard()
+	l0s, l1s := c04SweepLayers(0, false), c04SweepLayers(1, true)
+	col.SetExtra("sweep_universe", fmt.Sprintf("%d consistent base layers x %d consistent second layers over %v", len(l0s), len(l1s), c04SweepPaths))
+	stride := ev.IntEnv("VERIF_C04_SWEEP_STRIDE", 1) // >1 thins the sweep (debugging only)
+	var idx, done, skipped int64
+	for _, a := range l0s {
+		for _, b := range l1s {
+			idx++
+			if int(idx%int64(shards)) != shard || (stride > 1 && (idx/int64(shards))%int64(stride) != 0) {
+				continue
+			}
+			cs := c04Case{Leg: "sweep", Image: tarimg.Image{Layers: []tarimg.Layer{a, b}}, SkipUnpack: true}
+			f, _, _ := c04Features(cs)
+			known := ""
+			for _, k := range sortedKeys(f) {
+				if col.IsKnown(k) {
+					known = k
+					break
+				}
+			}
+			if known != "" {
+				col.Excluded(known)
+				skipped++
+				continue
+			}
+			o, err := ev.Safe(propC04)(cs)
+			o.Classes = append(o.Classes, "sweep")
+			done++
+			if !e.Report(cs, o, err) {
+				return
+			}
+		}
+	}
+	col.AddExtra("sweep_images_checked", done)
+	col.AddExtra("sweep_images_in_known_classes", skipped)
+	if stride == 1 {
+		col.SetExtra("sweep_complete", true)
+	}
+	completed = true
+}
